@@ -100,22 +100,23 @@ CLAIMED.update({
 # clauses added after the mutation rounds (DESIGN.md section 10.6); appended to the scope text of each property
 ADDED = {
     "C01": " Also: the unreduced balance has the fee subtraction as its only consumer; each pending fee is looked up for the asset it reduces; the withdraw hook honours only the LP token and the direct withdrawal compares the attached denom with the stored LP denom.",
-    "C02": " Also (T3): swap validates the native offer before reading balances; per-asset pending-fee lookup; one direction table for reserves and decimals.",
-    "C03": " Also: the mint helper computes D(pool) and D(pool_i + deposit_i) with matching indices and mints supply*(d1-d0)/d0 (operator tree); compute_d uses its two reserves symmetrically.",
-    "C04": " Also: operator tree of the ramp interpolation (product before division, range ordered per branch); 3-pool deposit wiring (mint helper operands in pool order, D(pool_i + deposit_i), compute_d symmetric in three reserves); raw-balance single consumer; LP-token-only withdraw hook; direct withdrawal denom.",
-    "C05": " Also: direct Withdraw{} compares the attached denom with CONFIG.lp_asset and passes funds[0].amount; withdraw hook honours only the LP token; loan counter incremented first in flash_loan and decremented on every success path of after_trade.",
-    "C06": " Also: the NextLoan the router starts names info.sender as initiator; next_loan threads the handled NextLoan's initiator and loaned_assets into every NextLoan/CompleteLoan it builds.",
-    "C07": " Also (F5): at instantiation each of the three ledgers gets one zero entry per pool asset in pool order.",
-    "C08": " The list handed to aggregate_assets/deduct_assets is exactly [declared asset].",
-    "C09": " Also (D6): forwarded epochs (empty `available`) are filtered from the claimable list and a reward enters the payout only after its asset was found in epoch.available.",
-    "C10": " Also (Q6): pools and vaults zero a pending entry only where they transfer it to the configured collector.",
+    "C02": " T3 also: every reader of pool balances subtracts the pending fees; every path storing pool_fees validates the whole triple (T1's precondition). Also (T3): swap validates the native offer before reading balances; per-asset pending-fee lookup; one direction table for reserves and decimals.",
+    "C03": " Also: Newton step tree (Ann*S + Dp*n)*d/((Ann-1)*d + (n+1)*Dp) with Ann = amp*n; result fields of the stableswap arm carry the like-named fees; floor-family rounding on deposit / withdrawal / swap. Also: the mint helper computes D(pool) and D(pool_i + deposit_i) with matching indices and mints supply*(d1-d0)/d0 (operator tree); compute_d uses its two reserves symmetrically.",
+    "C04": " Also: every StableSwap is built from the stored ramp and env.block.height (resolved through the call sites); Newton step tree; pool-side fee collection zeroes only what it transfers. Also: operator tree of the ramp interpolation (product before division, range ordered per branch); 3-pool deposit wiring (mint helper operands in pool order, D(pool_i + deposit_i), compute_d symmetric in three reserves); raw-balance single consumer; LP-token-only withdraw hook; direct withdrawal denom.",
+    "C05": " Also (V7): a loan settles only when the balance covers the old balance plus all three fees. Also: direct Withdraw{} compares the attached denom with CONFIG.lp_asset and passes funds[0].amount; withdraw hook honours only the LP token; loan counter incremented first in flash_loan and decremented on every success path of after_trade.",
+    "C06": " Also: the router forwards any positive remainder (ordering-domain walk over the profit). Also: the NextLoan the router starts names info.sender as initiator; next_loan threads the handled NextLoan's initiator and loaned_assets into every NextLoan/CompleteLoan it builds.",
+    "C07": " Also (F1): compute_swap's result fields carry Fee::compute of the like-named fee in BOTH pair-type arms; flash_loan snapshots the raw queried balance. Also (F5): at instantiation each of the three ledgers gets one zero entry per pool asset in pool order.",
+    "C08": " The weight helpers return and save the record they were given (nothing loaded from storage); the Unbonding query's cursor is an exclusive bound. The list handed to aggregate_assets/deduct_assets is exactly [declared asset].",
+    "C09": " Also (D7): whale_lair bond/unbond are dominated by validate_claimed(sender)? which rejects a non-empty claimable list; (D8) the v0.9.1 migration refunds exactly the field it empties. Also (D6): forwarded epochs (empty `available`) are filtered from the claimable list and a reward enters the payout only after its asset was found in epoch.available.",
+    "C10": " Also: factory listing queries carry the selected FactoryType's own start_after/limit; (Q7) each optional collector setting can be changed on its own. Also (Q6): pools and vaults zero a pending entry only where they transfer it to the configured collector.",
     "C11": " Also (K6): position lists are only edited in place (update closures return the list they were given; saves store the loaded list).",
-    "C12": " Also (L7): the stored new claimed total is the quantity a dominating `> funded amount` test rejects.",
+    "C12": " Also (L8) positions are recorded only for LP actually received (LP and reward funds share one balance); (L9) the v1.0.6 migration copies every pre-existing Flow field from the same-named old field. Also (L7): the stored new claimed total is the quantity a dominating `> funded amount` test rejects.",
     "C13": " Also (W7): claim, rewards query and share query replay an inclusive epoch range ending at the current epoch.",
-    "C15": " Also: the slippage clause table (both constant-product orientations and the stableswap clause reject strictly beyond the bound).",
-    "C16": " Also: cw20 hooks honour only the right token contract; UpdateConfig assigns CONFIG.owner only from the request's owner field; instantiate stores InstantiateMsg.owner when declared, else the sender; NextLoan requires the factory-registered vault.",
+    "C15": " Also: every entry path forwards the request's own belief_price / max_spread to swap; the deposits handed to the slippage check are in pool order. Also: the slippage clause table (both constant-product orientations and the stableswap clause reject strictly beyond the bound).",
+    "C16": " Also: every successful return of a privileged handler is guard-dominated (not only its effects). Also: cw20 hooks honour only the right token contract; UpdateConfig assigns CONFIG.owner only from the request's owner field; instantiate stores InstantiateMsg.owner when declared, else the sender; NextLoan requires the factory-registered vault.",
     "C17": " Each flag stored by update_config comes from the same-named request field.",
     "C18": " The vault's factory-asset/burn-share test guards every path from new fees to the save.",
+    "C14": " The 3-pool builds its curve from the stored ramp and the block height on the simulation and the execution path alike.",
     "C19": " Pagination cursors: canonicalised like the keys, successor formed by appending one constant byte <= 0x20, used as exclusive lower bound.",
     "C20": " Also: the distributor's epoch_config is validated (duration >= 1 day) on every storing path; the epoch manager's Epoch{id} query derives past starts from the stored clock.",
 }
